@@ -237,7 +237,7 @@ CHECKS["C19"] = dict(
           "non-trivial: credentials are configured"))
 
 CHECKS["C16"] = dict(
-    stages=[dict(sub="c16", quick=1500, thorough=40000, shards=1)],
+    stages=[dict(sub="c16", quick=1500, thorough=48000, shards=16, shard_min=10000)],
     assumptions=["each input is executed in a worker process against the real sql.Parse, sql.TableFor, DB.Query (planner.Plan) and Iterate on a DB with data; "
                  "a worker that dies or hangs (20s watchdog) while executing an input is recorded as crash/hang for that input and restarted at the next one",
                  "panics on the caller's goroutine are recovered by the worker and recorded as 'panic'",
